@@ -51,12 +51,16 @@ def th_scheme(check, proj, c):
             check.violation("TH-SCHEME", where, "%d linear solves in one step (expected 1)" % len(sv), loc, key="nsolve")
             continue
         mat, rhs = sv[0]
-        # matrix
-        want_ident = {-1: 1 + xi}
-        if mat.ident == want_ident and mat.jac == -theta:
-            check.ok("TH-SCHEME", where, "matrix is (1+xi)/dt*I - theta*J with (theta, xi) = (%s, %s)" % (theta, xi), loc)
+        # matrix: D^s * ((1+xi) D^-1 - theta J) for some row scaling s (D = diag(dt): dt scalar or one
+        # value per cell).  A scaling on the column side, J D^c, is another system for local time steps.
+        sc = getattr(mat, "rowp", 0)
+        want_ident = {sc - 1: 1 + xi}
+        if getattr(mat, "colp", 0) != 0:
+            check.violation("TH-SCHEME", where, "the Jacobian is scaled by the time-step array on the COLUMN side (matrix %r): numpy broadcasts a 1-D array along the last axis, so `dt_array * J` is J*diag(dt), not diag(dt)*J; with a local-time-step array the system solved is not the theta scheme" % (mat,), loc, key="col-scaling")
+        elif mat.ident == want_ident and mat.jac == -theta:
+            check.ok("TH-SCHEME", where, "matrix is %s(1+xi)/dt*I - theta*J%s with (theta, xi) = (%s, %s)" % ("diag(dt)^%d * [" % sc if sc else "", "]" if sc else "", theta, xi), loc)
         else:
-            check.violation("TH-SCHEME", where, "matrix is %r, expected (%s*dt^-1)*I + (%s)*J" % (mat, 1 + xi, -theta), loc, key="matrix")
+            check.violation("TH-SCHEME", where, "matrix is %r, expected a row scaling of (%s*dt^-1)*I + (%s)*J" % (mat, 1 + xi, -theta), loc, key="matrix")
         # Jacobian taken at the state being stepped, right-hand side = R(Q0) (+ xi*last)
         if mat.jtag is None or not o["J"]:
             check.violation("JAC-GUARD", where, "no Jacobian evaluation on this step path", loc, key="nojac")
@@ -78,7 +82,7 @@ def th_scheme(check, proj, c):
                 check.violation("TH-SCHEME", where, "right-hand side of equation %d contains %s (residual clobbered or not recomputed after the Jacobian)" % (e, other), loc, key="rhs-foreign")
                 okrhs = False
                 continue
-            if len(kterms) != 1 or kterms[0][1] != one or kterms[0][0][2] != e:
+            if len(kterms) != 1 or kterms[0][1] != {sc: Fraction(1)} or kterms[0][0][2] != e:
                 check.violation("TH-SCHEME", where, "right-hand side of equation %d is %s, expected the residual R_%d(Q)" % (e, rhs[e], e), loc, key="rhs-K")
                 okrhs = False
                 continue
@@ -88,7 +92,7 @@ def th_scheme(check, proj, c):
                 check.violation("TH-SCHEME", where, "residual in the right-hand side is evaluated at %s, not at the state being stepped" % kdata[0], loc, key="rhs-state")
                 okrhs = False
             lcoef = lterms[0][1] if lterms else {}
-            wantl = {0: xi} if xi != 0 else {}
+            wantl = {sc: xi} if xi != 0 else {}
             if lcoef != wantl or (lterms and lterms[0][0] != ("L", e)):
                 check.violation("TH-SCHEME", where, "right-hand side carries %s of the previous increment, expected xi = %s" % (lcoef or 0, xi), loc, key="rhs-last")
                 okrhs = False
